@@ -121,6 +121,7 @@ func (s *sim) check(a Action) {
 	defer s.mu.Unlock()
 	s.checkAdmissions()
 	s.noteGenerations()
+	s.checkNoticesLive()
 	s.checkLive()
 	s.checkInput()
 	s.checkOutput(false)
@@ -440,6 +441,41 @@ func (s *sim) noteGenerations() {
 		}
 		if g.ended && g.endStep == 0 && g.endedBy.doneR {
 			g.endStep = s.step
+		}
+	}
+}
+
+// checkNoticesLive judges ready and gone notices as they are received (the
+// counting rules need the whole history and are checked at the end).
+func (s *sim) checkNoticesLive() {
+	gens := s.m.gens
+	for ; s.noticeSeen < len(s.recv); s.noticeSeen++ {
+		r := s.recv[s.noticeSeen]
+		if r.att == nil {
+			continue
+		}
+		switch r.class {
+		case "ready":
+			found := false
+			for _, g := range gens {
+				if g.ready && g.readyBy != nil && g.readyBy.att.addr == r.att.addr && !g.readySeen {
+					g.readySeen = true
+					found = true
+					break
+				}
+			}
+			if !found {
+				s.violate("C04", "ready-iff-attached", "ready notice without a fully attached shell",
+					"a ready notice from attempt %d was displayed (item %d) but no shell became fully attached through it (or it was announced twice)", r.att.id, r.idx)
+				return
+			}
+		case "gone":
+			if s.goneOpen >= len(gens) || gens[s.goneOpen].endedBy == nil || gens[s.goneOpen].endedBy.att.addr != r.att.addr {
+				s.violate("C04", "gone-once", "unexpected 'shell is gone' notice",
+					"a gone notice from attempt %d was displayed (item %d) that does not close the current shell (shell #%d)", r.att.id, r.idx, s.goneOpen)
+				return
+			}
+			s.goneOpen++
 		}
 	}
 }
